@@ -216,6 +216,9 @@ func (l *SnowflakeListener) acceptStreams(conn *kcp.UDPSession) error {
 		// We store "" in the map in the absence of client_ip. This log
 		// message means you should increase clientIDAddrMapCapacity.
 		log.Printf("no address in clientID-to-IP map (capacity %d)", clientIDAddrMapCapacity)
+		// Report "no address" the same way as for a carrier without
+		// client_ip, so that RemoteAddr never returns a nil net.Addr.
+		addr = ClientMapAddr("")
 	}
 
 	smuxConfig := smux.DefaultConfig()
